@@ -1048,6 +1048,8 @@ class Executor:
 
     def _apply_contract_now(self, path, c: Contract, a, label: str, node=None) -> list:
         ln = getattr(node, "lineno", 0)
+        if c.generator:
+            return self._apply_generator_contract(path, c, a, label, node)
         s0 = path.snapshot()
         for k, f in c.pre(s0, a).items():
             self.run.oblige(path, "call-pre", f"{label}/{k}", f, callee=c.name)
@@ -1058,6 +1060,9 @@ class Executor:
         r = self.fresh_of_type(pn, c.returns, "ret")
         post = c.post(s0, pn.view(), a, r)
         pn.assume(*post.values())
+        if hasattr(c, "derived"):
+            # consequences of the post by a named meta-lemma (reported in the evidence)
+            pn.assume(*c.derived(s0, pn.view(), a, r).values())
         if isinstance(r, O) and r.cls == "Val":
             pass
         outs.append((pn, r))
@@ -1085,6 +1090,9 @@ class Executor:
             old = path.hget(key)
             new = fresh(prefix + key, old.sort())
             path.hset(key, new)
+            if key == "list.len":
+                o2 = z3.Const("o!ll", Int)
+                path.assume(z3.ForAll([o2], z3.Select(new, o2) >= 0, patterns=[z3.Select(new, o2)]))
             if plus:
                 o = z3.Const("o!hv", Int)
                 path.assume(z3.ForAll([o], z3.Implies(z3.And(o >= 0, o < al0, *[o != x for x in exclude]),
@@ -1093,6 +1101,28 @@ class Executor:
         na = fresh("alloc", Int)
         path.assume(na >= path.hget("ghost.alloc"))
         path.hset("ghost.alloc", na)
+
+    def _apply_generator_contract(self, path, c: Contract, a, label, node=None) -> list:
+        """Calling a generator function under contract: its ghost output (ylog, ny) starts empty and
+        is described by the post; the caller gets the yielded values as a fresh sequence (laziness is
+        not modelled: the generator is consumed completely, which is how the repo uses it)."""
+        saved_log, saved_n = path.hget("ghost.ylog"), path.hget("ghost.ny")
+        path.hset("ghost.ny", z3.IntVal(0))
+        s0 = path.snapshot()
+        for k, f in c.pre(s0, a).items():
+            self.run.oblige(path, "call-pre", f"{label}/{k}", f, callee=c.name)
+        self.havoc_keys(path, c.modifies, s0)
+        r = NoneV()
+        path.assume(*c.post(s0, path.view(), a, r).values())
+        if hasattr(c, "derived"):
+            path.assume(*c.derived(s0, path.view(), a, r).values())
+        lst = path.alloc(f"list[{getattr(c, 'yields', 'Val')}]", "gen")
+        path.assume(path.hget("ghost.ny") >= 0)
+        path.store("list.arr", lst.e, path.hget("ghost.ylog"))
+        path.store("list.len", lst.e, path.hget("ghost.ny"))
+        path.hset("ghost.ylog", saved_log)
+        path.hset("ghost.ny", saved_n)
+        return [(path, lst)]
 
     # ---- inline execution of a real function body --------------------------------------
     def call_inline(self, path, qualname: str, recv, ca: CallArgs, node=None) -> list:
@@ -1206,6 +1236,19 @@ class Executor:
     def exec_Expr(self, st, path):
         if isinstance(st.value, ast.Constant):
             return [(path, NORM)]
+        if isinstance(st.value, ast.Yield):
+            # generator = procedure with a ghost output sequence (ghost.ylog / ghost.ny)
+            out = []
+            vals = self.ev(st.value.value, path) if st.value.value is not None else [(path, NoneV())]
+            for p, r in vals:
+                if isinstance(r, Raise):
+                    out.append((p, r))
+                    continue
+                n = p.hget("ghost.ny")
+                p.hset("ghost.ylog", z3.Store(p.hget("ghost.ylog"), n, ref_of(r)))
+                p.hset("ghost.ny", n + 1)
+                out.append((p, NORM))
+            return out
         out = []
         for p, r in self.ev(st.value, path):
             out.append((p, r if isinstance(r, Raise) else NORM))
@@ -1257,6 +1300,9 @@ class Executor:
 
     def assign(self, path, tgt, v: V) -> list:
         if isinstance(tgt, ast.Name):
+            lt = getattr(self.contract, "local_types", None) if self.contract is not None else None
+            if lt and tgt.id in lt and isinstance(v, O):
+                v = O(v.e, lt[tgt.id])  # declared static type of a local (e.g. deque() -> deque[State])
             path.env[tgt.id] = v
             return [(path, NORM)]
         if isinstance(tgt, (ast.Tuple, ast.List)):
@@ -1446,6 +1492,15 @@ class Executor:
             return None
         return self.contract.loops.get(k)
 
+    def loop_spec_or_trivial(self, node) -> LoopSpec:
+        """A loop without a contract gets the trivial invariant `true` (sound: nothing is known
+        after it except the frame); used for message-building comprehensions."""
+        sp = self.loop_spec(node)
+        if sp is None:
+            self.run.trivial_loops = getattr(self.run, "trivial_loops", 0) + 1
+            return LoopSpec(lambda s0, s, a, l: {}, modifies=TRIVIAL_LOOP_MODIFIES)
+        return sp
+
     def _havoc_for_loop(self, path, body_nodes, spec: LoopSpec, extra_names=()):
         names = set(extra_names)
         for b in body_nodes:
@@ -1509,10 +1564,8 @@ class Executor:
         path.assume(*inv.values())
 
     def exec_While(self, st, path):
-        spec = self.loop_spec(st)
+        spec = self.loop_spec_or_trivial(st)
         k = self.loop_ids.get(id(st))
-        if spec is None:
-            raise Unsupported(f"{self.qualname}: while loop #{k} has no invariant")
         self._check_inv(path, spec, k, "entry")
         entry = self._havoc_for_loop(path, st.body + [st.test], spec)
         self._assume_inv(path, spec)
@@ -1585,6 +1638,13 @@ class Executor:
             if base == "deque":
                 arr, h, t = path.sel("deque.arr", v.e), path.sel("deque.head", v.e), path.sel("deque.tail", v.e)
                 return (lambda k2, arr=arr, h=h: z3.Select(arr, h + k2)), t - h, (targs[0] if targs else "Val")
+            if base == "set":
+                # iteration order of a set is unspecified: some enumeration of its members
+                has = path.sel("set.has", v.e)
+                arr, n = fresh("set_enum", z3.ArraySort(Int, Int)), fresh("set_n", Int)
+                k2 = fresh("k", Int)
+                path.assume(n >= 0, z3.ForAll([k2], z3.Implies(z3.And(k2 >= 0, k2 < n), z3.Select(has, z3.Select(arr, k2)))))
+                return (lambda k3, arr=arr: z3.Select(arr, k3)), n, (targs[0] if targs else "Val")
             m = class_model(v.cls)
             if m.iter_fn is not None:
                 return self.seq_view(path, m.iter_fn(self, path, v), node)
@@ -1626,10 +1686,8 @@ class Executor:
                 out += self.exec_block(st.orelse, p)
             return out
         elem, n, et = sv
-        spec = self.loop_spec(st)
+        spec = self.loop_spec_or_trivial(st)
         k = self.loop_ids.get(id(st))
-        if spec is None:
-            raise Unsupported(f"{self.qualname}: for loop #{k} has no invariant")
         path.assume(n >= 0)
         self._check_inv(path, spec, k, "entry", i=z3.IntVal(0), n=n, seq=elem)
         entry = self._havoc_for_loop(path, st.body, spec, extra_names=_target_names(st.target))
@@ -1682,6 +1740,7 @@ def _target_names(t):
     return [n.id for n in ast.walk(t) if isinstance(n, ast.Name)]
 
 
+TRIVIAL_LOOP_MODIFIES = ["list.arr+", "list.len+", "set.has+"]
 BINOPS: Dict[tuple, Callable] = {}
 CONTAINS_HOOKS: Dict[str, Callable] = {}
 STR_METHODS: Dict[str, Callable] = {}
